@@ -12,6 +12,7 @@ import (
 	"bytes"
 	"encoding/json"
 	"fmt"
+	"io"
 	"os"
 	"os/exec"
 	"path/filepath"
@@ -29,9 +30,6 @@ import (
 	minjson "github.com/tdewolff/minify/v2/json"
 	minsvg "github.com/tdewolff/minify/v2/svg"
 	minxml "github.com/tdewolff/minify/v2/xml"
-	"github.com/tdewolff/parse/v2"
-	pjs "github.com/tdewolff/parse/v2/js"
-	xhtml "golang.org/x/net/html"
 
 	"verifharness/h"
 )
@@ -101,93 +99,7 @@ func c16New(kind string) any {
 	return &minxml.Minifier{}
 }
 
-// ---------- oracles ----------
-
-type c16HTMLFacts struct {
-	comments  int
-	endTags   map[string]int
-	startTags map[string]int
-	attrs     map[string]int // "tag name=value"
-	unquoted  int
-	skeleton  []string
-}
-
-func c16HTML(b []byte) c16HTMLFacts {
-	f := c16HTMLFacts{endTags: map[string]int{}, startTags: map[string]int{}, attrs: map[string]int{}}
-	z := xhtml.NewTokenizer(bytes.NewReader(b))
-	raw := ""
-	foreign := 0 // inside <svg>/<math>: that content belongs to another minifier, the HTML options do not apply
-	for {
-		tt := z.Next()
-		if tt == xhtml.ErrorToken {
-			break
-		}
-		var tagName string
-		var moreAttr bool
-		var rawTok []byte
-		if tt == xhtml.StartTagToken || tt == xhtml.EndTagToken || tt == xhtml.SelfClosingTagToken {
-			rawTok = append([]byte(nil), z.Raw()...)
-			n, more := z.TagName() // may be called only once per token
-			tagName, moreAttr = string(n), more
-			if tagName == "svg" || tagName == "math" {
-				if tt == xhtml.StartTagToken {
-					foreign++
-				} else if tt == xhtml.EndTagToken && foreign > 0 {
-					foreign--
-				}
-				continue
-			}
-		}
-		if foreign > 0 {
-			continue
-		}
-		switch tt {
-		case xhtml.CommentToken:
-			if !bytes.HasPrefix(z.Raw(), []byte("<!--[if")) && !bytes.HasPrefix(z.Raw(), []byte("<!--#")) {
-				f.comments++
-			}
-		case xhtml.EndTagToken:
-			f.endTags[tagName]++
-			f.skeleton = append(f.skeleton, "T")
-			raw = ""
-		case xhtml.StartTagToken, xhtml.SelfClosingTagToken:
-			name, more := tagName, moreAttr
-			f.startTags[name]++
-			for more {
-				var k, v []byte
-				k, v, more = z.TagAttr()
-				f.attrs[name+" "+string(k)+"="+string(v)]++
-			}
-			if regexp.MustCompile(`=[^"'\s>][^\s>]*`).Match(rawTok) {
-				f.unquoted++
-			}
-			f.skeleton = append(f.skeleton, "T")
-			if name == "script" || name == "style" || name == "textarea" || name == "pre" || name == "title" {
-				raw = name
-			}
-		case xhtml.TextToken:
-			if raw != "" {
-				f.skeleton = append(f.skeleton, "R")
-				continue
-			}
-			t := string(z.Text())
-			fields := strings.Fields(t)
-			if len(t) > 0 && strings.TrimLeft(t, " \t\r\n\f") != t {
-				f.skeleton = append(f.skeleton, "_")
-			}
-			for i, w := range fields {
-				if i > 0 {
-					f.skeleton = append(f.skeleton, "_")
-				}
-				f.skeleton = append(f.skeleton, "w:"+w)
-			}
-			if len(fields) > 0 && strings.TrimRight(t, " \t\r\n\f") != t {
-				f.skeleton = append(f.skeleton, "_")
-			}
-		}
-	}
-	return f
-}
+// ---------- oracles: see c16_oracles.go ----------
 
 func c16JSONNumbers(b []byte) ([]string, bool) {
 	d := json.NewDecoder(bytes.NewReader(b))
@@ -204,48 +116,9 @@ func c16JSONNumbers(b []byte) ([]string, bool) {
 	}
 }
 
-type c16JSFacts struct {
-	idents                                  map[string]bool
-	exp, nullish, optchain, template, catch0 bool
-}
-
-func c16JS(b []byte) c16JSFacts {
-	f := c16JSFacts{idents: map[string]bool{}}
-	l := pjs.NewLexer(parse.NewInputBytes(append([]byte(nil), b...)))
-	prevCatch := false
-	for {
-		tt, data := l.Next()
-		if tt == pjs.ErrorToken {
-			break
-		}
-		if tt == pjs.WhitespaceToken || tt == pjs.LineTerminatorToken || tt == pjs.CommentToken || tt == pjs.CommentLineTerminatorToken {
-			continue
-		}
-		switch tt {
-		case pjs.IdentifierToken:
-			f.idents[string(data)] = true
-		case pjs.ExpToken, pjs.ExpEqToken:
-			f.exp = true
-		case pjs.NullishToken, pjs.NullishEqToken:
-			f.nullish = true
-		case pjs.OptChainToken:
-			f.optchain = true
-		case pjs.TemplateToken, pjs.TemplateStartToken:
-			f.template = true
-		case pjs.OpenBraceToken:
-			if prevCatch {
-				f.catch0 = true
-			}
-		}
-		prevCatch = tt == pjs.CatchToken
-	}
-	return f
-}
-
-var c16ExpRe = regexp.MustCompile(`[0-9.][eE][+-]?[0-9]`)
-
 func init() {
 	register("C16", func(c *Ctx) error {
+		minify.Warning.SetOutput(io.Discard) // KeepConditionalComments prints a deprecation warning per call
 		flags, err := c16Flags()
 		if err != nil {
 			return err
@@ -306,171 +179,498 @@ func init() {
 		}
 		st.End()
 
-		// ---- stage honoured ----
-		st = c.R.StartStage("honoured", "seed and corpus documents x option sets (full boolean product for json/xml/svg/css, sampled for html/js) x ECMAScript versions {0,5,2015,2016,2019,2020,2022} x precisions: kept constructs appear in the output as in the input (comments, end tags, document tags, quotes, default attribute values, whitespace skeleton, number lexemes, identifiers, no exponent with KeepCSS2, no syntax newer than the target version unless the input used it); non-trivial = at least one Keep*/Version option set")
-		docs := map[string][][]byte{}
-		for k, ss := range c16Seeds {
-			for _, s := range ss {
-				docs[k] = append(docs[k], []byte(s))
-			}
+		// ---- oracle self test, known findings ----
+		if err := c16SelfTest(); err != nil {
+			return err
 		}
-		for _, d := range c09Docs(c.Repo, c.N(40000, 400000)) {
-			for k, mt := range c16Types {
-				if d.mt == mt {
-					docs[k] = append(docs[k], d.data)
-				}
-			}
-		}
-		kinds := []string{"css", "html", "js", "json", "svg", "xml"}
-		n := c.N(900, 30000)
-		for it := 0; it < n; it++ {
-			r := c.Rng.Fork()
-			kind := kinds[r.Intn(len(kinds))]
-			doc := docs[kind][r.Intn(len(docs[kind]))]
-			o := c16New(kind)
-			ov := reflect.ValueOf(o).Elem()
-			var cfg []string
-			for i := 0; i < ov.NumField(); i++ {
-				fld := ov.Type().Field(i)
-				if !fld.IsExported() || fld.Name == "Inline" || fld.Name == "TemplateDelims" || fld.Name == "KeepConditionalComments" {
-					continue
-				}
-				switch ov.Field(i).Kind() {
-				case reflect.Bool:
-					if r.Bool() {
-						ov.Field(i).SetBool(true)
-						cfg = append(cfg, fld.Name)
-					}
-				case reflect.Int:
-					if fld.Name == "Version" {
-						v := []int{0, 5, 2015, 2016, 2019, 2020, 2022}[r.Intn(7)]
-						ov.Field(i).SetInt(int64(v))
-						cfg = append(cfg, fmt.Sprintf("Version=%d", v))
-					} else if r.Chance(25) {
-						p := 1 + r.Intn(17)
-						ov.Field(i).SetInt(int64(p))
-						cfg = append(cfg, fmt.Sprintf("%s=%d", fld.Name, p))
-					}
-				}
-			}
-			sort.Strings(cfg)
-			cfgS := strings.Join(cfg, ",")
-			var out []byte
-			var merr error
-			if crash := h.Safely(60*time.Second, func() { out, merr = c16Lib(kind, o, doc) }); crash != "" {
-				c.R.Add(h.Finding{Stage: st.Name, Kind: "crash", What: crash, Input: h.Q(trunc(doc, 300)), Config: kind + " " + cfgS})
+		open := map[string]bool{}
+		for _, k := range h.Known("C16") {
+			if k.Status != "open" {
 				continue
 			}
-			key := fmt.Sprintf("%s {%s} %s", kind, cfgS, h.Q(trunc(doc, 100)))
-			st.Count(key, len(cfg) > 0)
-			st.Tag(kind)
-			if merr != nil {
-				continue
-			}
-			has := func(name string) bool {
-				for _, x := range cfg {
-					if x == name {
-						return true
-					}
-				}
-				return false
-			}
-			fail := func(what, detail string) {
-				c.R.Add(h.Finding{Stage: st.Name, Kind: "fail", What: what, Input: h.Q(trunc(doc, 400)), Hex: h.Hex(trunc(doc, 100000)), Config: kind + " {" + cfgS + "}", Impl: h.Q(trunc(out, 400)) + " " + detail})
-			}
-			switch kind {
-			case "json":
-				if has("KeepNumbers") {
-					a, ok := c16JSONNumbers(doc)
-					b, _ := c16JSONNumbers(out)
-					if ok && strings.Join(a, " ") != strings.Join(b, " ") {
-						fail("KeepNumbers: number lexemes changed", "")
-					}
-				}
-			case "xml":
-				if has("KeepWhitespace") {
-					if d := c16XMLSpaces(doc, out); d != "" {
-						fail("xml KeepWhitespace: a space next to a tag was removed entirely", d)
-					}
-				}
-			case "svg":
-				if has("KeepComments") && bytes.Count(doc, []byte("<!--")) != bytes.Count(out, []byte("<!--")) {
-					fail("svg KeepComments: comments removed", "")
-				}
-			case "css":
-				if has("KeepCSS2") {
-					if !c16ExpRe.Match(doc) && c16ExpRe.Match(out) {
-						fail("css KeepCSS2: exponent notation introduced", "")
-					}
-					if bytes.Count(out, []byte("initial")) > bytes.Count(doc, []byte("initial")) {
-						fail("css KeepCSS2: `initial` introduced", "")
-					}
-				}
-			case "js":
-				in, o2 := c16JS(doc), c16JS(out)
-				if has("KeepVarNames") {
-					for id := range o2.idents {
-						if !in.idents[id] {
-							fail("js KeepVarNames: identifier `"+id+"` does not occur in the input", "")
-							break
-						}
-					}
-				}
-				ver := 0
-				for _, x := range cfg {
-					if strings.HasPrefix(x, "Version=") {
-						ver, _ = strconv.Atoi(x[8:])
-					}
-				}
-				if ver != 0 {
-					for _, ft := range []struct {
-						name      string
-						since     int
-						in, outHas bool
-					}{{"template literal", 2015, in.template, o2.template}, {"**", 2016, in.exp, o2.exp}, {"optional catch binding", 2019, in.catch0, o2.catch0}, {"??", 2020, in.nullish, o2.nullish}, {"?.", 2020, in.optchain, o2.optchain}} {
-						if ft.outHas && !ft.in && ver < ft.since {
-							fail(fmt.Sprintf("js Version=%d: output uses %s (ES%d) although the input does not", ver, ft.name, ft.since), "")
-						}
-					}
-				}
-			case "html":
-				in, o2 := c16HTML(doc), c16HTML(out)
-				if has("KeepComments") && in.comments != o2.comments {
-					fail("html KeepComments: comments removed", fmt.Sprintf("%d vs %d", in.comments, o2.comments))
-				}
-				if has("KeepEndTags") {
-					for name, k := range in.endTags {
-						if name == "html" || name == "head" || name == "body" || name == "colgroup" {
-							continue
-						}
-						if o2.endTags[name] < k && in.startTags[name] >= k {
-							fail("html KeepEndTags: end tag </"+name+"> removed", fmt.Sprintf("%d vs %d", k, o2.endTags[name]))
-							break
-						}
-					}
-				}
-				if has("KeepDocumentTags") {
-					for _, name := range []string{"html", "head", "body"} {
-						if o2.startTags[name] < in.startTags[name] {
-							fail("html KeepDocumentTags: <"+name+"> removed", "")
-						}
-					}
-				}
-				if has("KeepQuotes") && in.unquoted == 0 && o2.unquoted > 0 {
-					fail("html KeepQuotes: quotes removed from an attribute value", "")
-				}
-				if has("KeepDefaultAttrVals") {
-					for _, a := range []string{"script type=text/javascript", "form method=get", "input type=text", "style type=text/css", "link type=text/css", "button type=submit"} {
-						if in.attrs[a] > o2.attrs[a] {
-							fail("html KeepDefaultAttrVals: default attribute `"+a+"` removed", "")
-						}
-					}
-				}
+			open[k.ID] = true
+			cfg := c16ParseCfg(k.ReplayStr("kind"), k.ReplayStr("options"))
+			out, err := c16Run(cfg, []byte(k.ReplayStr("input")), "")
+			still := err == nil && string(out) != k.ReplayStr("expected")
+			c.R.AddKnown(k.ID, still, k.What, string(out))
+		}
+		// ---- fixed regression corpus: the inputs of the repaired findings K-C16-1..4; must pass ----
+		stf := c.R.StartStage("fixed", "inputs of the findings repaired in /repo (44fae7b KeepEndTags, c5a4469 KeepDefaultAttrVals/input, 2252d4e property shorthand, 292d477 js Restore) with the expected bytes; non-trivial = an option is set")
+		for _, f := range c16Fixed {
+			cfg := c16ParseCfg(f[0], f[1])
+			out, err := c16Run(cfg, []byte(f[2]), "")
+			stf.Count(cfg.String()+" "+f[2], true)
+			if err != nil || string(out) != f[3] {
+				c.R.Add(h.Finding{Stage: stf.Name, Kind: "fail", What: f[0] + " " + f[1] + " is not honoured (regression of a repaired finding): expected " + h.Q([]byte(f[3])), Input: h.Q([]byte(f[2])), Hex: h.HexS(f[2]), Config: cfg.String(), Impl: h.Q(out)})
 			}
 		}
-		st.End()
+		stf.End()
+		c16Honoured(c, open)
 		return nil
 	})
+}
+
+// kind, options, input, expected output
+var c16Fixed = [][4]string{
+	{"html", "KeepEndTags", `<body class="a"><p>x</p></body>`, `<body class=a><p>x</p></body>`},
+	{"html", "KeepEndTags", `<table><colgroup span="2"></colgroup><tr><td>a</td></tr></table>`, `<table><colgroup span=2></colgroup><tr><td>a</td></tr></table>`},
+	{"html", "KeepEndTags", `<html lang=en><head id=h></head><body><p>x</body></html>`, `<html lang=en><head id=h></head><p>x</html>`},
+	{"html", "KeepDefaultAttrVals", `<input type="text" value="">`, `<input type=text value>`},
+	{"html", "KeepDefaultAttrVals", `<input type="radio" value="on">`, `<input type=radio value=on>`},
+	{"html", "", `<input type="text" value="">`, `<input>`},
+	{"html", "KeepQuotes", `<img onclick="f()" onload='g(1)'>`, `<img onclick="f()" onload='g(1)'>`},
+	{"js", "Version=5", `x={a:a,b:b}`, `x={a:a,b:b}`},
+	{"js", "Version=2014", `x={a:a,b:b}`, `x={a:a,b:b}`},
+	{"js", "Version=2015", `x={a:a,b:b}`, `x={a,b}`},
+	{"js", "", `x={a:a,b:b}`, `x={a,b}`},
+}
+
+// c16Cfg is one option setting of one minifier
+type c16Cfg struct {
+	kind   string
+	bools  map[string]bool
+	ints   map[string]int
+	delims [2]string
+}
+
+func (c c16Cfg) String() string {
+	var p []string
+	for k, v := range c.bools {
+		if v {
+			p = append(p, k)
+		}
+	}
+	for k, v := range c.ints {
+		if v != 0 {
+			p = append(p, fmt.Sprintf("%s=%d", k, v))
+		}
+	}
+	if c.delims[0] != "" {
+		p = append(p, "TemplateDelims="+c.delims[0]+c.delims[1])
+	}
+	sort.Strings(p)
+	return c.kind + " {" + strings.Join(p, ",") + "}"
+}
+
+func c16ParseCfg(kind, opts string) c16Cfg {
+	cfg := c16Cfg{kind: kind, bools: map[string]bool{}, ints: map[string]int{}}
+	for _, o := range strings.Split(opts, ",") {
+		if o == "" {
+			continue
+		}
+		if i := strings.IndexByte(o, '='); i >= 0 {
+			n, _ := strconv.Atoi(o[i+1:])
+			cfg.ints[o[:i]] = n
+		} else {
+			cfg.bools[o] = true
+		}
+	}
+	return cfg
+}
+
+// c16Run minifies doc with the real minifier configured by cfg (fields set by reflection); params is appended to the media type
+func c16Run(cfg c16Cfg, doc []byte, params string) ([]byte, error) {
+	o := c16New(cfg.kind)
+	ov := reflect.ValueOf(o).Elem()
+	for k, v := range cfg.bools {
+		if f := ov.FieldByName(k); f.IsValid() {
+			f.SetBool(v)
+		} else if v {
+			return nil, fmt.Errorf("no option field %s.%s", cfg.kind, k)
+		}
+	}
+	for k, v := range cfg.ints {
+		if f := ov.FieldByName(k); f.IsValid() {
+			f.SetInt(int64(v))
+		} else if v != 0 {
+			return nil, fmt.Errorf("no option field %s.%s", cfg.kind, k)
+		}
+	}
+	if cfg.delims[0] != "" {
+		ov.FieldByName("TemplateDelims").Set(reflect.ValueOf(cfg.delims))
+	}
+	m := minify.New()
+	m.AddFunc("text/css", mincss.Minify)
+	m.AddFunc("text/html", minhtml.Minify)
+	m.AddFunc("image/svg+xml", minsvg.Minify)
+	m.AddFuncRegexp(regexp.MustCompile("^(application|text)/(x-)?(java|ecma|j|live)script(1\\.[0-5])?$|^module$"), minjs.Minify)
+	m.AddFuncRegexp(regexp.MustCompile("[/+]json$"), minjson.Minify)
+	m.AddFuncRegexp(regexp.MustCompile("[/+]xml$"), minxml.Minify)
+	m.Add(c16Types[cfg.kind], o.(minify.Minifier))
+	var out bytes.Buffer
+	err := m.Minify(c16Types[cfg.kind]+params, &out, bytes.NewReader(append([]byte(nil), doc...)))
+	return out.Bytes(), err
+}
+
+var c16HTMLBools = []string{"KeepComments", "KeepConditionalComments", "KeepSpecialComments", "KeepDefaultAttrVals", "KeepDocumentTags", "KeepEndTags", "KeepQuotes", "KeepWhitespace"}
+
+type c16Input struct {
+	doc    []byte
+	name   string
+	corpus bool
+}
+
+func c16Honoured(c *Ctx, open map[string]bool) {
+	st := c.R.StartStage("honoured", "per option an oracle that is independent of the Lean models, evaluated on the bytes the real minifier writes: "+
+		"html: all 256 Keep* masks on seed/generated documents (sampled masks on corpus documents), template delimiter sets; js: KeepVarNames x Version {0,5,2015..2022} x Precision; "+
+		"css: KeepCSS2 x Inline x Precision; json: KeepNumbers x Precision 0..17; svg: KeepComments x Precision; xml: KeepWhitespace; "+
+		"oracles: comments / special comments / end-tag sequence / document tags / quoting / attribute multiset / word-and-space skeleton / template expressions (x/net/html tokenizer + raw attribute scan), "+
+		"number lexemes (encoding/json), rounding bound |w-v| <= 10^(L-p+1)/2 (math/big), comments and numeric attributes (encoding/xml), identifiers and newer-syntax tokens (token classes), no exponent / no new `initial` (css tokens); "+
+		"non-trivial = the option under test is set (or Version/Precision non-zero) and its oracle judged the case")
+	gen := c16Gen{c.Rng.Fork()}
+	sz := func(quick, thorough int) int { // widened when a proof or the translator is broken (-search)
+		n := c.N(quick, thorough)
+		if c.Search {
+			n *= 3
+		}
+		return n
+	}
+	corpus := map[string][]c16Input{}
+	for _, d := range c09Docs(c.Repo, c.N(40000, 400000)) {
+		for k, mt := range c16Types {
+			if d.mt == mt {
+				corpus[k] = append(corpus[k], c16Input{d.data, d.name, true})
+			}
+		}
+	}
+	inputs := func(kind string, n int, g func() string) []c16Input {
+		var r []c16Input
+		for i, s := range c16Seeds[kind] {
+			r = append(r, c16Input{[]byte(s), fmt.Sprintf("seed-%d", i), false})
+		}
+		for i := 0; i < n; i++ {
+			r = append(r, c16Input{[]byte(g()), fmt.Sprintf("gen-%d", i), false})
+		}
+		return append(r, corpus[kind]...)
+	}
+	excluded := map[string]int{}
+	judged := map[string]int{}
+	fail := func(cfg c16Cfg, in c16Input, out []byte, opt, detail string) {
+		c.R.Add(h.Finding{Stage: st.Name, Kind: "fail", What: cfg.kind + " " + opt + " is not honoured: " + detail, Input: h.Q(trunc(in.doc, 600)), Hex: h.Hex(trunc(in.doc, 100000)), Config: cfg.String(), Impl: h.Q(trunc(out, 600))})
+	}
+	run := func(cfg c16Cfg, in c16Input, params string) ([]byte, bool) {
+		var out []byte
+		var err error
+		if crash := h.Safely(60*time.Second, func() { out, err = c16Run(cfg, in.doc, params) }); crash != "" {
+			c.R.Add(h.Finding{Stage: st.Name, Kind: "crash", What: crash, Input: h.Q(trunc(in.doc, 300)), Hex: h.Hex(trunc(in.doc, 100000)), Config: cfg.String()})
+			return nil, false
+		}
+		return out, err == nil
+	}
+	// verdict bookkeeping: opt = "kind.Option=value"
+	check := func(cfg c16Cfg, in c16Input, out []byte, opt, res string) {
+		if res == c16Skip {
+			return
+		}
+		judged[opt]++
+		st.Tag(opt)
+		if res != "" {
+			fail(cfg, in, out, opt, res)
+		}
+	}
+
+	// ---------------- html ----------------
+	hin := inputs("html", sz(300, 2500), func() string { return gen.html("", "") })
+	for _, in := range hin {
+		din := c16ScanHTML(in.doc)
+		var masks []int
+		if in.corpus {
+			for i := 0; i < 10; i++ {
+				masks = append(masks, gen.r.Intn(256))
+			}
+		} else {
+			for mk := 0; mk < 256; mk++ {
+				masks = append(masks, mk)
+			}
+		}
+		outs := map[int][]byte{}
+		for _, mk := range masks {
+			cfg := c16Cfg{kind: "html", bools: map[string]bool{}, ints: map[string]int{}}
+			for i, n := range c16HTMLBools {
+				cfg.bools[n] = mk>>i&1 == 1
+			}
+			out, ok := run(cfg, in, "")
+			st.Count(cfg.String()+" "+in.name+" "+h.Q(trunc(in.doc, 80)), mk != 0)
+			if !ok {
+				continue
+			}
+			outs[mk] = out
+			dout := c16ScanHTML(out)
+			b := cfg.bools
+			if b["KeepComments"] {
+				check(cfg, in, out, "html.KeepComments=on", c16OracleKeepComments(din, dout))
+			}
+			if b["KeepSpecialComments"] || b["KeepConditionalComments"] {
+				n := "html.KeepSpecialComments=on"
+				if !b["KeepSpecialComments"] {
+					n = "html.KeepConditionalComments=on"
+				}
+				check(cfg, in, out, n, c16OracleKeepSpecial(din, dout, b["KeepComments"]))
+			}
+			if b["KeepEndTags"] {
+				res, ex := c16OracleKeepEndTags(din, dout, b["KeepDocumentTags"], open["K-C16-1"])
+				if ex {
+					excluded["K-C16-1"]++
+				}
+				check(cfg, in, out, "html.KeepEndTags=on", res)
+			}
+			if b["KeepDocumentTags"] {
+				check(cfg, in, out, "html.KeepDocumentTags=on", c16OracleKeepDocumentTags(din, dout))
+			}
+			if b["KeepQuotes"] {
+				res, ex := c16OracleKeepQuotes(din, dout, open["K-C16-4"])
+				if ex {
+					excluded["K-C16-4"]++
+				}
+				check(cfg, in, out, "html.KeepQuotes=on", res)
+			}
+			if b["KeepDefaultAttrVals"] {
+				res, ex := c16OracleKeepDefaults(din, dout, open["K-C16-2"])
+				if ex {
+					excluded["K-C16-2"]++
+				}
+				check(cfg, in, out, "html.KeepDefaultAttrVals=on", res)
+			}
+			if b["KeepWhitespace"] {
+				check(cfg, in, out, "html.KeepWhitespace=on", c16OracleKeepWhitespace(din, dout))
+			}
+		}
+		// KeepConditionalComments is KeepSpecialComments (deprecated alias): same bytes for the same other options
+		for _, mk := range masks {
+			if mk>>1&1 == 1 && mk>>2&1 == 0 {
+				if alias, ok := outs[mk&^2|4]; ok && outs[mk] != nil {
+					res := ""
+					if !bytes.Equal(alias, outs[mk]) {
+						res = fmt.Sprintf("output with KeepSpecialComments instead: %s", h.Q(trunc(alias, 300)))
+					}
+					check(c16Cfg{kind: "html", bools: map[string]bool{"KeepConditionalComments": true}}, in, outs[mk], "html.KeepConditionalComments=alias", res)
+				}
+			}
+		}
+	}
+	// template delimiters
+	for _, dl := range [][2]string{{"{{", "}}"}, {"<%", "%>"}, {"<?", "?>"}} {
+		for i, n := 0, sz(120, 1000); i < n; i++ {
+			in := c16Input{[]byte(gen.html(dl[0], dl[1])), fmt.Sprintf("tmpl-%d", i), false}
+			for k := 0; k < 6; k++ {
+				mk := gen.r.Intn(256)
+				cfg := c16Cfg{kind: "html", bools: map[string]bool{}, ints: map[string]int{}, delims: dl}
+				for i, n := range c16HTMLBools {
+					cfg.bools[n] = mk>>i&1 == 1
+				}
+				out, ok := run(cfg, in, "")
+				has := bytes.Contains(in.doc, []byte(dl[0]))
+				st.Count(cfg.String()+" "+h.Q(trunc(in.doc, 80)), has)
+				if ok && has {
+					check(cfg, in, out, "html.TemplateDelims="+dl[0]+dl[1], c16OracleTemplates(in.doc, out, dl[0], dl[1]))
+				}
+			}
+		}
+	}
+
+	// ---------------- js ----------------
+	versions := []int{0, 5, 2015, 2016, 2017, 2018, 2019, 2020, 2021, 2022}
+	for _, in := range inputs("js", sz(600, 6000), gen.js) {
+		jin := c16ScanJS(in.doc)
+		type jc struct {
+			keep bool
+			ver  int
+			prec int
+		}
+		var cfgs []jc
+		if in.corpus {
+			for i := 0; i < 6; i++ {
+				cfgs = append(cfgs, jc{gen.r.Bool(), versions[gen.r.Intn(len(versions))], 0})
+			}
+		} else {
+			for _, v := range versions {
+				cfgs = append(cfgs, jc{false, v, 0}, jc{true, v, 0})
+			}
+			for i := 0; i < 4; i++ {
+				cfgs = append(cfgs, jc{gen.r.Bool(), versions[gen.r.Intn(len(versions))], 1 + gen.r.Intn(17)})
+			}
+		}
+		for _, x := range cfgs {
+			cfg := c16Cfg{kind: "js", bools: map[string]bool{"KeepVarNames": x.keep}, ints: map[string]int{"Version": x.ver, "Precision": x.prec}}
+			out, ok := run(cfg, in, "")
+			st.Count(cfg.String()+" "+in.name+" "+h.Q(trunc(in.doc, 80)), x.keep || x.ver != 0 || x.prec != 0)
+			if !ok {
+				continue
+			}
+			jout := c16ScanJS(out)
+			if x.keep {
+				check(cfg, in, out, "js.KeepVarNames=on", c16OracleKeepVarNames(jin, jout))
+			}
+			if x.ver != 0 {
+				res, ex := c16OracleVersion(jin, jout, x.ver, open["K-C16-3"])
+				if ex {
+					excluded["K-C16-3"]++
+				}
+				check(cfg, in, out, fmt.Sprintf("js.Version=%d", x.ver), res)
+			}
+			if !in.corpus {
+				check(cfg, in, out, fmt.Sprintf("js.Precision=%d", x.prec), c16OracleNumbers(jin.nums, jout.nums, x.prec))
+			}
+		}
+	}
+
+	// ---------------- css ----------------
+	precs := []int{0, 1, 2, 3, 5, 8, 15, 17}
+	for _, inline := range []bool{false, true} {
+		nPlain := 0
+		g := func() string { nPlain++; return gen.css(nPlain%2 == 0) }
+		if inline {
+			g = gen.cssInline
+		}
+		ins := inputs("css", sz(500, 5000), g)
+		if inline {
+			ins = ins[len(c16Seeds["css"]) : len(ins)-len(corpus["css"])]
+		}
+		for idx, in := range ins {
+			// the number-by-number comparison needs documents in which nothing but the number printer touches numbers
+			plain := !inline && !in.corpus && idx >= len(c16Seeds["css"]) && (idx-len(c16Seeds["css"])+1)%2 == 0
+			nin, expIn, iniIn := c16CSSNumbers(in.doc)
+			cur := bytes.Count(bytes.ToLower(in.doc), []byte("currentcolor"))
+			for _, keep := range []bool{false, true} {
+				ps := precs
+				if in.corpus {
+					ps = []int{0, precs[gen.r.Intn(len(precs))]}
+				}
+				for _, p := range ps {
+					cfg := c16Cfg{kind: "css", bools: map[string]bool{"KeepCSS2": keep, "Inline": inline}, ints: map[string]int{"Precision": p}}
+					out, ok := run(cfg, in, "")
+					st.Count(cfg.String()+" "+in.name+" "+h.Q(trunc(in.doc, 80)), keep || p != 0 || inline)
+					if !ok {
+						continue
+					}
+					nout, expOut, iniOut := c16CSSNumbers(out)
+					if keep {
+						res := ""
+						if expOut && !expIn {
+							res = "exponent notation introduced"
+						} else if iniOut > iniIn+cur {
+							res = "`initial` introduced"
+						}
+						check(cfg, in, out, "css.KeepCSS2=on", res)
+					}
+					if plain {
+						check(cfg, in, out, fmt.Sprintf("css.Precision=%d", p), c16OracleNumbers(nin, nout, p))
+					}
+					if inline && p == 0 {
+						// Inline is the `inline=1` media type parameter
+						cfg2 := c16Cfg{kind: "css", bools: map[string]bool{"KeepCSS2": keep}, ints: map[string]int{}}
+						out2, ok2 := run(cfg2, in, ";inline=1")
+						res := ""
+						if !ok2 || !bytes.Equal(out, out2) {
+							res = fmt.Sprintf("with the media type parameter inline=1 instead: %s", h.Q(trunc(out2, 300)))
+						}
+						check(cfg, in, out, "css.Inline=on", res)
+					}
+				}
+			}
+		}
+	}
+
+	// ---------------- json ----------------
+	for _, in := range inputs("json", sz(400, 4000), func() string { return gen.jsonDoc(3) }) {
+		a, okIn := c16JSONNumbers(in.doc)
+		for _, keep := range []bool{false, true} {
+			for p := 0; p <= 17; p++ {
+				if in.corpus && p%6 != 0 {
+					continue
+				}
+				cfg := c16Cfg{kind: "json", bools: map[string]bool{"KeepNumbers": keep}, ints: map[string]int{"Precision": p}}
+				out, ok := run(cfg, in, "")
+				st.Count(cfg.String()+" "+in.name+" "+h.Q(trunc(in.doc, 80)), keep || p != 0)
+				if !ok || !okIn {
+					continue
+				}
+				b, _ := c16JSONNumbers(out)
+				if keep {
+					res := ""
+					if strings.Join(a, " ") != strings.Join(b, " ") {
+						res = fmt.Sprintf("number lexemes of the input %v, of the output %v", a, b)
+					}
+					check(cfg, in, out, "json.KeepNumbers=on", res)
+				} else if len(a) > 0 {
+					res := c16OracleNumbers(a, b, p)
+					if res == c16Skip && len(a) != len(b) {
+						res = fmt.Sprintf("%d numbers in the input, %d in the output", len(a), len(b))
+					}
+					check(cfg, in, out, fmt.Sprintf("json.Precision=%d", p), res)
+				}
+			}
+		}
+	}
+
+	// ---------------- svg ----------------
+	for _, in := range inputs("svg", sz(400, 4000), gen.svg) {
+		for _, keep := range []bool{false, true} {
+			for _, p := range precs {
+				if in.corpus && p != 0 && p != 3 {
+					continue
+				}
+				cfg := c16Cfg{kind: "svg", bools: map[string]bool{"KeepComments": keep}, ints: map[string]int{"Precision": p}}
+				out, ok := run(cfg, in, "")
+				st.Count(cfg.String()+" "+in.name+" "+h.Q(trunc(in.doc, 80)), keep || p != 0)
+				if !ok {
+					continue
+				}
+				if keep {
+					check(cfg, in, out, "svg.KeepComments=on", c16OracleSVGComments(in.doc, out))
+				}
+				check(cfg, in, out, fmt.Sprintf("svg.Precision=%d", p), c16OracleSVGPrecision(in.doc, out, p))
+				if p == 0 && !in.corpus {
+					cfgI := c16Cfg{kind: "svg", bools: map[string]bool{"KeepComments": keep, "Inline": true}, ints: map[string]int{}}
+					o1, ok1 := run(cfgI, in, "")
+					o2, ok2 := run(cfg, in, ";inline=1")
+					res := ""
+					if ok1 != ok2 || !bytes.Equal(o1, o2) {
+						res = fmt.Sprintf("Inline: %s, media type parameter inline=1: %s", h.Q(trunc(o1, 200)), h.Q(trunc(o2, 200)))
+					}
+					check(cfgI, in, o1, "svg.Inline=on", res)
+				}
+			}
+		}
+	}
+
+	// ---------------- xml ----------------
+	for _, in := range inputs("xml", sz(500, 5000), func() string { return "<r>" + gen.xmlDoc(3) + "</r>" }) {
+		for _, keep := range []bool{false, true} {
+			cfg := c16Cfg{kind: "xml", bools: map[string]bool{"KeepWhitespace": keep}, ints: map[string]int{}}
+			out, ok := run(cfg, in, "")
+			st.Count(cfg.String()+" "+in.name+" "+h.Q(trunc(in.doc, 80)), keep)
+			if ok && keep {
+				check(cfg, in, out, "xml.KeepWhitespace=on", c16XMLSpaces(in.doc, out))
+			}
+		}
+	}
+
+	// ---------------- coverage ----------------
+	var ks []string
+	for k := range judged {
+		ks = append(ks, k)
+	}
+	sort.Strings(ks)
+	var parts []string
+	for _, k := range ks {
+		parts = append(parts, fmt.Sprintf("%s:%d", k, judged[k]))
+	}
+	c.R.Note("honoured: cases judged per option value — %s", strings.Join(parts, " "))
+	for _, want := range []string{"html.KeepComments=on", "html.KeepConditionalComments=on", "html.KeepConditionalComments=alias", "html.KeepSpecialComments=on", "html.KeepDefaultAttrVals=on",
+		"html.KeepDocumentTags=on", "html.KeepEndTags=on", "html.KeepQuotes=on", "html.KeepWhitespace=on", "html.TemplateDelims={{}}", "html.TemplateDelims=<%%>", "html.TemplateDelims=<??>",
+		"js.KeepVarNames=on", "js.Version=5", "js.Version=2015", "js.Version=2016", "js.Version=2019", "js.Version=2020", "js.Version=2022", "js.Precision=0", "css.KeepCSS2=on", "css.Inline=on",
+		"css.Precision=0", "css.Precision=3", "json.KeepNumbers=on", "json.Precision=0", "json.Precision=1", "json.Precision=17", "svg.KeepComments=on", "svg.Inline=on", "svg.Precision=0", "svg.Precision=3",
+		"xml.KeepWhitespace=on"} {
+		if judged[want] == 0 {
+			c.R.Add(h.Finding{Stage: st.Name, Kind: "diff", What: "coverage hole: no case judged for " + want})
+		}
+	}
+	for id, n := range excluded {
+		c.R.ExcludedKnown += n
+		c.R.Note("honoured: %d cases fall under the open known finding %s (that clause not judged)", n, id)
+	}
+	st.End()
 }
 
 var c16TagRe = regexp.MustCompile(`<!--[\s\S]*?-->|<!\[CDATA\[[\s\S]*?\]\]>|<[^>]*>`)
